@@ -11,4 +11,15 @@ open Strengths.Gen.PyIdioms
 and reads dictionaries by key) -/
 theorem librdengine_value_semantic : valueSemantic inv_librdengine = true := by decide +kernel
 
+/-- `librdengine.py` never aliases an array on purpose: no `np.asarray`, `np.frombuffer`, `.view(…)`, `memoryview` — what a function
+returns is a fresh object (the model's values are immutable; this is the source fact that lets mutation of a returned
+object be ignored) -/
+theorem librdengine_no_views : views_librdengine = [] := by decide +kernel
+
+/-- `LibRDEngine.setup` works on its own copy of the script and of the script's units system -/
+theorem librdengine_copies :
+    copies_librdengine =
+      [("LibRDEngine.setup", "script.copy()"), ("LibRDEngine.setup", "script.units_system.copy()")] := by
+  decide +kernel
+
 end Strengths.PyIdioms
